@@ -136,7 +136,20 @@ def check_parse(ctx, kind, s, model):
             ctx.fail("text that is not a valid %s produced a value instead of ValueError" % kind, inp, impl, "ValueError")
     elif exp == "t24":
         if "err" not in impl:
-            pass
+            # accepted: then it denotes the first instant of the following day (00:00:00 for a time)
+            m = ORACLE[kind].match(s)
+            want = oracle_parse(kind, s[:m.start("h")] + "00" + s[m.end("h"):])
+            got = dict(impl)
+            if "tz" in got:
+                got["offset"] = offset_of(got.pop("tz"))
+            if kind == "dateTime" and isinstance(want, dict):
+                try:
+                    nd = datetime.date(*want["date"]) + datetime.timedelta(days=1)
+                    want = dict(want, date=canon_date(nd))
+                except (OverflowError, ValueError):
+                    want = None
+            if want is None or got != want:
+                ctx.fail("24:00:00 decoded to a value that is not the start of the following day", inp, impl, want)
         else:
             ctx.fail("valid lexical form rejected", inp, impl, "24:00:00 (end of day)", boundary="t24")
     elif exp == "unrepresentable":
@@ -314,6 +327,32 @@ def gen_parse_cases(ctx):
               "-2000-01-01", "+2000-01-01", "2000-01-01T24:00:00", "24:00:00", "24:00:00.0", "24:00:01"]:
         for kind in ("date", "time", "dateTime"):
             cases.append((kind, s))
+    # ISO 8601 forms that are not XSD lexical forms (basic format, week and ordinal dates, reduced precision,
+    # comma fractions, basic zones): nothing of the kind denotes a value
+    for _ in range(ctx.pick(60, 600)):
+        y, m, d = rng.choice(dates)
+        h, mi, sec = rng.choice(times[:4])
+        try:
+            iso = datetime.date(y, m, d).isocalendar()
+            ordinal = datetime.date(y, m, d).timetuple().tm_yday
+        except ValueError:
+            continue
+        dforms = ["%04d%02d%02d" % (y, m, d), "%04d-W%02d-%d" % (iso[0], iso[1], iso[2]),
+                  "%04dW%02d%d" % (iso[0], iso[1], iso[2]), "%04d-%03d" % (y, ordinal), "%04d-%02d" % (y, m),
+                  "--%02d-%02d" % (m, d), "%04d" % y]
+        tforms = ["%02d%02d%02d" % (h, mi, sec), "T%02d:%02d:%02d" % (h, mi, sec), "%02d:%02d" % (h, mi), "%02d" % h,
+                  "%02d:%02d:%02d,5" % (h, mi, sec), "%02d:%02d:%02d+0530" % (h, mi, sec),
+                  "%02d%02d%02d.5" % (h, mi, sec)]
+        good_d, good_t = "%04d-%02d-%02d" % (y, m, d), "%02d:%02d:%02d" % (h, mi, sec)
+        for x in dforms:
+            cases.append(("date", x))
+            cases.append(("dateTime", x + "T" + good_t))
+            cases.append(("dateTime", x))
+        for x in tforms:
+            cases.append(("time", x))
+            cases.append(("dateTime", good_d + "T" + x))
+        cases.append(("dateTime", dforms[0] + "T" + tforms[0]))
+        cases.append(("dateTime", good_d + "t" + good_t))
     return cases
 
 
